@@ -74,21 +74,6 @@ Proof.
   - intros (d & Hd & Hin). exists d. split; [apply in_seq; lia|exact Hin].
 Qed.
 
-Lemma labelled_not_plain l rest : label_ok l = true -> subcall_match (l ++ rest) = None.
-Proof.
-  unfold label_ok. intros H. apply andb_true_iff in H as [Hn Hd]. destruct l as [|c l]; [discriminate|].
-  cbn [forallb] in Hd. apply andb_true_iff in Hd as [Hc _].
-  assert (E1 : starts_ci (s "if") ((c :: l) ++ rest) = false).
-  { cbn. destruct c as [[|] [|] [|] [|] [|] [|] [|] [|]]; try discriminate Hc; reflexivity. }
-  assert (E2 : starts_ci (s "call") ((c :: l) ++ rest) = false).
-  { cbn. destruct c as [[|] [|] [|] [|] [|] [|] [|] [|]]; try discriminate Hc; reflexivity. }
-  unfold subcall_match. rewrite E1. unfold call_kw. now rewrite E2.
-Qed.
-
-
-
-
-
 Lemma wf_stmt_segs st : seg_stmt st = true -> wf_stmt st = true -> wf_segs (stmt_segs st) = true /\ stmt_segs st <> [].
 Proof.
   destruct st as [lab sp f|lab d|lab sp c d|sp pairs| | |]; try discriminate; intros _ H; cbn [wf_stmt] in H.
@@ -109,47 +94,59 @@ Proof.
   now apply andb_true_iff in H as [H _].
 Qed.
 
+(* the level-0 text of a labelled statement, as SUBCALL_RE sees it behind the label *)
+Lemma sh_segs_lab_strip lab gs : wf_lab lab = true -> gs <> [] -> hd_not is_space (sh_segs gs) ->
+  strip_label (sh_segs (lab_segs lab ++ gs)) = strip_label (sh_segs gs) \/ strip_label (sh_segs (lab_segs lab ++ gs)) = sh_segs gs.
+Proof.
+  intros Hl Hg Hs. destruct lab as [l|]; [right|now left]. cbn [lab_segs app].
+  rewrite (sh_segs_label l gs Hg). now apply strip_label_lab.
+Qed.
+
+Lemma subcall_lab lab gs : wf_lab lab = true -> gs <> [] -> hd_not is_space (sh_segs gs) ->
+  strip_label (sh_segs gs) = sh_segs gs ->
+  subcall_match (sh_segs (lab_segs lab ++ gs)) = subcall_match (sh_segs gs).
+Proof.
+  intros Hl Hg Hs He. unfold subcall_match.
+  destruct (sh_segs_lab_strip lab gs Hl Hg Hs) as [E|E]; rewrite E; [reflexivity|now rewrite He].
+Qed.
+
 (* C08_raw: for every statement written as segments, the chains _add_procedure_calls collects are
    exactly the identifiers in front of "(" at every nesting level — keywords included — and,
-   for CALL and IF ... CALL, the target of the CALL *)
+   for CALL and IF ... CALL (labelled or not), the target of the CALL first *)
 Theorem raw_stmt st : seg_stmt st = true -> wf_stmt st = true -> plain_ok st = true ->
   map norm_chain (chain_texts (render_stmt st)) = stmt_chains st.
 Proof.
   intros Hseg Hwf Hplain. destruct (wf_stmt_segs st Hseg Hwf) as [Hsegs Hne].
-  assert (Hlab : forall l gs, gs <> [] -> label_ok l = true -> subcall_match (sh_segs (GWord l :: gs)) = None).
-  { intros l gs Hg Hl. rewrite (sh_segs_label l gs Hg). now apply labelled_not_plain. }
   destruct st as [lab sp f|lab d|lab sp c d|sp pairs| | |]; try discriminate.
   - change (render_stmt (SForm lab sp f)) with (render_segs (stmt_segs (SForm lab sp f))).
-    unfold stmt_chains. apply raw_segs; [exact Hsegs|exact Hne|].
-    destruct lab as [l|].
-    + cbn [stmt_segs lab_segs app]. apply Hlab.
-      * destruct f; cbn; try discriminate. destruct w2; discriminate.
-      * cbn [wf_stmt wf_lab] in Hwf. now apply andb_true_iff in Hwf as [Hwf _].
-    + now apply subcall_plain.
+    unfold stmt_chains. apply raw_segs; [exact Hsegs|exact Hne|]. now apply subcall_plain.
   - change (render_stmt (SCall lab d)) with (render_segs (stmt_segs (SCall lab d))).
-    destruct lab as [l|].
-    + unfold stmt_chains. apply raw_segs; [exact Hsegs|exact Hne|].
-      cbn [stmt_segs lab_segs app]. apply Hlab; [discriminate|].
-      cbn [wf_stmt wf_lab] in Hwf. now apply andb_true_iff in Hwf as [Hwf _].
-    + unfold stmt_chains.
-      assert (Hd : wf_d d = true) by (apply (wf_d_of_segs None [GWord (s "call")] d); exact Hsegs).
-      change (render_stmt (SCall None d)) with (render_segs (stmt_segs (SCall None d))).
-      apply raw_subcall; [now apply wf_segs_all|exact Hne|exact Hd|].
-      cbn [stmt_segs lab_segs app]. change (sh_segs [GWord (s "call"); GExpr (EDes d)]) with (s "call" ++ space :: sh_d d).
-      now apply subcall_call.
+    unfold stmt_chains.
+    assert (Hd : wf_d d = true) by (apply (wf_d_of_segs lab [GWord (s "call")] d); exact Hsegs).
+    change (render_stmt (SCall lab d)) with (render_segs (stmt_segs (SCall lab d))).
+    apply raw_subcall; [now apply wf_segs_all|exact Hne|exact Hd|].
+    cbn [stmt_segs]. cbn [wf_stmt] in Hwf. apply andb_true_iff in Hwf as [Hl _].
+    rewrite (subcall_lab lab [GWord (s "call"); GExpr (EDes d)] Hl); try discriminate; try reflexivity.
+    change (sh_segs [GWord (s "call"); GExpr (EDes d)]) with (s "call" ++ space :: sh_d d).
+    now apply subcall_call.
   - change (render_stmt (SIfCall lab sp c d)) with (render_segs (stmt_segs (SIfCall lab sp c d))).
-    destruct lab as [l|].
-    + unfold stmt_chains. apply raw_segs; [exact Hsegs|exact Hne|].
-      cbn [stmt_segs lab_segs app]. apply Hlab; [discriminate|].
-      cbn [wf_stmt wf_lab] in Hwf. now apply andb_true_iff in Hwf as [Hwf _].
-    + unfold stmt_chains.
-      assert (Hd : wf_d d = true) by (apply (wf_d_of_segs None [GKw (s "if") sp c; GWord (s "call")] d); exact Hsegs).
-      change (render_stmt (SIfCall None sp c d)) with (render_segs (stmt_segs (SIfCall None sp c d))).
-      apply raw_subcall; [now apply wf_segs_all|exact Hne|exact Hd|].
-      cbn [stmt_segs lab_segs app].
-      change (sh_segs [GKw (s "if") sp c; GWord (s "call"); GExpr (EDes d)])
-        with ((s "if" ++ kw_sp sp ++ par2) ++ space :: s "call" ++ space :: sh_d d).
-      rewrite <- !app_assoc. now apply subcall_ifcall.
+    unfold stmt_chains.
+    assert (Hd : wf_d d = true) by (apply (wf_d_of_segs lab [GKw (s "if") sp c; GWord (s "call")] d); exact Hsegs).
+    change (render_stmt (SIfCall lab sp c d)) with (render_segs (stmt_segs (SIfCall lab sp c d))).
+    apply raw_subcall; [now apply wf_segs_all|exact Hne|exact Hd|].
+    cbn [stmt_segs]. cbn [wf_stmt] in Hwf. apply andb_true_iff in Hwf as [Hl _].
+    rewrite (subcall_lab lab [GKw (s "if") sp c; GWord (s "call"); GExpr (EDes d)] Hl); try discriminate; try reflexivity.
+    change (sh_segs [GKw (s "if") sp c; GWord (s "call"); GExpr (EDes d)])
+      with ((s "if" ++ kw_sp sp ++ par2) ++ space :: s "call" ++ space :: sh_d d).
+    rewrite <- !app_assoc. now apply subcall_ifcall.
   - change (render_stmt (SAssoc sp pairs)) with (render_segs (stmt_segs (SAssoc sp pairs))).
     unfold stmt_chains. apply raw_segs; [exact Hsegs|exact Hne|]. now apply subcall_plain.
+Qed.
+
+(* a computed GO TO is scanned without its label list: the chains of what is left *)
+Theorem raw_goto e : wf_segs (goto_segs e) = true ->
+  map norm_chain (chain_texts (render_segs (goto_segs e))) =
+  flat_map seg_heads0 (goto_segs e) ++ level_heads (flat_map subs_seg (goto_segs e)) (length (render_segs (goto_segs e))).
+Proof.
+  intros Hwf. apply raw_segs; [exact Hwf|discriminate|]. reflexivity.
 Qed.
